@@ -13,30 +13,31 @@ FLOORS = {"ops": 60, "munch": 38, "rulesets": 20, "rctx": 34, "eoi": 12, "classe
 def c01(ctx, env):
     env.src(ctx, ["R-WL", "R-EXH", "R-ORDER"])
     env.runtime(ctx, {"R-SUM", "R-PAIR"})
-    env.replay_gen(ctx, {"R-SAVED", "P5", "P6", "P9"})
+    env.replay_gen(ctx, {"R-SAVED", "P5", "P6", "P9", "TV", "TV-CTX"})
     env.witnesses(ctx, ["munch", "ops", "rctx", "rulesets"],
                   {"TV", "TV-CTX", "COMPILE", "R-SAVED", "P5", "P6", "P9", "R-BSEARCH"}, FLOORS)
 
 
 def c02(ctx, env):
     env.src(ctx, ["R-FLOW", "R-EXH"])
+    env.replay_gen(ctx, {"TV", "R-BSEARCH"})
     env.witnesses(ctx, ["ops", "classes", "prec"], {"TV", "COMPILE", "R-BSEARCH", "P9"}, FLOORS)
 
 
 def c03(ctx, env):
     env.runtime(ctx, {"R-SUM", "R-WHO"})
-    env.replay_gen(ctx, {"P7", "P5", "P6", "P9", "R-WHO"})
+    env.replay_gen(ctx, {"P7", "P5", "P6", "P9", "R-WHO", "TV"})
     env.witnesses(ctx, ["rulesets", "actions"], {"TV", "COMPILE", "P7", "P5", "P6", "P9", "R-WHO"}, FLOORS)
 
 
 def c04(ctx, env):
-    env.replay_gen(ctx, {"P8", "P9", "R-BSEARCH"})
+    env.replay_gen(ctx, {"P8", "P9", "R-BSEARCH", "TV", "TV-CTX"})
     env.witnesses(ctx, ["rctx", "modules"], {"TV", "TV-CTX", "COMPILE", "P8", "P9", "R-BSEARCH"}, FLOORS)
 
 
 def c05(ctx, env):
     env.runtime(ctx, {"R-SUM", "R-WHO"})
-    env.replay_gen(ctx, {"P1", "P2", "P3", "P4", "P9", "R-WHO"})
+    env.replay_gen(ctx, {"P1", "P2", "P3", "P4", "P9", "R-WHO", "TV"})
     env.witnesses(ctx, ["eoi"], {"TV", "COMPILE", "P1", "P2", "P3", "P4", "P9"}, FLOORS)
 
 
@@ -72,7 +73,7 @@ def c10(ctx, env):
 
 def c11(ctx, env):
     env.tables(ctx, ["R-DATA"])
-    env.replay_gen(ctx, {"R-BSEARCH"})
+    env.replay_gen(ctx, {"R-BSEARCH", "TV"})
     env.witnesses(ctx, ["classes"], {"TV", "COMPILE", "R-BSEARCH", "P9"}, FLOORS)
 
 
@@ -85,7 +86,7 @@ def c12(ctx, env):
 
 def c13(ctx, env):
     env.tables(ctx, ["R-MAP", "R-DATA", "R-ORACLE"])
-    env.replay_gen(ctx, {"R-BSEARCH"})
+    env.replay_gen(ctx, {"R-BSEARCH", "TV"})
     env.witnesses(ctx, ["builtins"], {"TV", "COMPILE", "R-BSEARCH", "P9"}, FLOORS)
 
 
@@ -120,6 +121,7 @@ def check_generated_statics(ctx, env):
 
 def c16(ctx, env):
     env.src(ctx, ["R-PARSE", "R-SCOPE"])
+    env.replay_gen(ctx, {"TV"})
     env.witnesses(ctx, ["prec", "illformed"], {"TV", "COMPILE", "REJECT"}, FLOORS)
 
 
